@@ -74,6 +74,14 @@ func (f *FakeSup) Exec(_ context.Context, r *supvmodel.ExecRequest) error {
 	}
 	f.procs[r.Name] = p
 	f.L.Add("sup exec:%s", r.Name)
+	has := func(k string) int {
+		if v, ok := p.Env[k]; ok && v != "" {
+			return 1
+		}
+		return 0
+	}
+	f.L.Add("#envkeys %s AKID=%d SECRET=%d SESSION=%d TOKEN=%d URI=%d API=%s", r.Name, has("AWS_ACCESS_KEY_ID"), has("AWS_SECRET_ACCESS_KEY"),
+		has("AWS_SESSION_TOKEN"), has("AWS_CONTAINER_AUTHORIZATION_TOKEN"), has("AWS_CONTAINER_CREDENTIALS_FULL_URI"), p.Env["AWS_LAMBDA_RUNTIME_API"])
 	return nil
 }
 
